@@ -13,16 +13,16 @@ PYSEM = ('Python semantics assumed by the VC encoding (E1-E6 in DESIGN.md 2.2): 
 
 B = 'bounded stand-in: the contracts of the functions the property depends on, evaluated at run time on the real code over the scope stated in coverage.rule; labelled bounded, never counted as proved. '
 P = {
- 'C01': dict(level='exploration', ref='3/C01', tech='contract-based deductive verification (pyvc + z3) of the CTL labelling functions _checkAtomicProposition/_checkNot/_checkOr/_checkEX/_checkStateFormula against result == sat(K,f) with the documented semantics as axioms; _checkEU/_checkEG/modelcheck bodies and compute_SCCs bounded only; decisive end-to-end part: run-time contract against an independent reference semantics',
-   text=B + 'CTL.modelcheck against vf/spec/sem.py on every structure <=2 states (3 states sampled/all in thorough) x CTL formulas to depth 2, random beyond.', note='reference semantics vf/spec/sem.py trusted (audited against lasso enumeration); ' + PYSEM),
+ 'C01': dict(level='exploration', ref='3/C01', tech='contract-based deductive verification (pyvc: AST->VC generator over the real source + z3) of CTL.modelcheck (object formula, F=None), _checkStateFormula, _checkAtomicProposition, _checkNot, _checkOr, _checkEX, _checkEU against result == sat(K,f) (documented semantics in fixpoint form as axioms); _checkEG and compute_SCCs bounded only; decisive end-to-end part: run-time contract against an independent reference semantics',
+   text='Deductive part: ~630 obligations (functional, memo-table invariant, raises) of 7 functions of CTL/model_checking.py discharged for all structures and formulas, incl. E(f U g) as least fixpoint via the contracts of get_subgraph/get_reversed_graph/add_edge/add_node/get_reachable_set_from. Not a proof of the property: _checkEG is only under an assumed contract, the semantics axioms and the rewriting contract of CTL A/E are trusted/bounded. The bounded stand-in (every structure <=2 states x formulas to depth 2, sampled/all 3-state, random <=6 states; vs vf/spec/sem.py) decides.', note='reference semantics vf/spec/sem.py trusted (audited against lasso enumeration); ' + PYSEM),
  'C02': dict(level='exploration', ref='3/C02', tech='run-time contract of LTL.modelcheck against the reference semantics with lasso certification (bounded); tableau internals not within deductive reach',
    text=B + 'LTL.modelcheck on small structures x path formulas with <=3 temporal operators; every excluded verdict certified by a concrete lasso.', note='_build_atoms/_Tableu and the tableau theorem are not proved; reference semantics trusted'),
  'C03': dict(level='exploration', ref='3/C03', tech='run-time contract of CTLS.modelcheck against the reference semantics (bounded)',
    text=B + 'CTLS.modelcheck on small structures x CTL* state formulas (arbitrary path formulas under A/E, quantifier nesting <=2).', note='LTL leg bounded only (C02); reference semantics trusted'),
  'C04': dict(level='exploration', ref='3/C04', tech='relational run-time contracts over pairs of calls (agreement of entry points, Boolean/duality/expansion laws); no oracle',
    text=B + 'agreement of CTL/LTL/CTL* entry points and text/object, and 16 semantic laws, on small and random structures.', note='needs no reference implementation; bounded scope'),
- 'C05': dict(level='exploration', ref='3/C05', tech='run-time contract of get_equivalent_restricted_formula/LNot: alphabet syntactic, equivalence decided by the reference semantics on a universal structure (bounded)',
-   text=B + 'every rewrite result is in the restricted alphabet, of the same logic, and equivalent (LTL equivalence over 2 atoms decided exactly on the universal 4-state structure; quantified formulas on all <=2-state structures + samples).', note='reference semantics trusted; formulas to depth 2-3'),
+ 'C05': dict(level='exploration', ref='3/C05', tech='contract-based deductive verification (pyvc + z3) of LNot and the 12 CTL* get_equivalent_restricted_formula bodies against the documented path semantics (axioms over abstract evaluation points) and the restricted alphabet; CTL A/E bodies and end-to-end claim: run-time contract with equivalence decided by the reference semantics (bounded)',
+   text='Deductive part: 100 obligations (equivalence for every evaluation point, restricted alphabet, loop invariants of the list-building loops) discharged for all formulas; the CTL A/E rewrites (AU, ER) are bounded only. Bounded stand-in: formulas to depth 2-3; LTL equivalence over 2 atoms decided exactly on the universal 4-state structure; quantified formulas on all <=2-state structures + samples.', note='reference semantics trusted; formulas to depth 2-3'),
  'C06': dict(level='exploration', ref='3/C06', tech='metamorphic run-time contracts (renaming, reordering, atom renaming, unreachable states) + fresh interpreters per PYTHONHASHSEED',
    text=B + '8 presentations per (K,f) and 4 (quick) / 32 (thorough) hash seeds.', note='finite sample of seeds and bijections'),
  'C07': dict(level='exploration', ref='3/C07', tech='frame obligations (pyvc + z3: every heap write goes to an object allocated during the call or named by the contract) on the CTL labelling functions; deep-snapshot run-time contracts and repeatability over random interleavings decide the rest (bounded)',
@@ -43,8 +43,8 @@ P = {
    text='Every obligation of the 8 Kripke functions under contract is generated from the current source and discharged for all argument combinations (optional S/S0/R/L, L possibly not a dict, non-iterable label values) and all subsets; callee contracts of graph.py are re-verified in the same run. Bounded stand-in: relations on <=3 states x argument shapes x all subsets.' + B[:0], note='Python semantics assumed by the VC encoding (E1-E6, DESIGN.md 2.2); z3 and the pyvc generator are trusted (vacuity probes, planted defects, bounded stand-in as cross-check); termination not proved. compute_SCCs is not involved.'),
  'C15': dict(level='exploration', ref='3/C15', tech='run-time contracts of get_fair_states and fair modelcheck against CGP fair semantics (Emerson-Lei reference); known findings attributed through defect models',
    text=B + 'get_fair_states on every relation <=3 states x every F of <=2 subsets; fair modelcheck on small structures; three recorded findings (KF-C15-1..3) are recognised only when the output equals what the defect model predicts.', note='reference semantics trusted; fairness is largely known-defective on the pinned tree'),
- 'C16': dict(level='exploration', ref='3/C16', tech='representation-invariant scan + canonicity check after every step of random build/combine/drop/gc histories',
-   text=B + 'seeded histories over pools of OBDDs, 1-4 variables.', note='WeakSet/GC semantics trusted (TB7)'),
+ 'C16': dict(level='exploration', ref='3/C16', tech='contract-based deductive verification (pyvc + z3) of the hash-consing table: find_isomorph (incl. the late-bound lambda), BDDNode.__reset__, BDDNonTerminalNode.__reset__/__new__ preserve the table invariant (parent sets consistent, reduced, no two registered non-terminals with the same (var,low,high)); GC histories and canonicity: representation-invariant scan after every step of random build/combine/drop/gc histories (bounded)',
+   text='Deductive part: 96 obligations discharged for all creation histories without garbage collection (the invariant ranges over every node ever registered). GC interleavings, terminal nodes and "equal function iff same root" (Bryant canonicity, TB8) are decided by the bounded stand-in: seeded histories over pools of OBDDs with a scan of BDDNode.nodes() after every step.', note='WeakSet/GC semantics trusted (TB7)'),
  'C17': dict(level='exploration', ref='3/C17', tech='denotational run-time contracts of apply/invert/restrict/variables + shape walk (ordered, reduced)',
    text=B + 'expression pairs over <=4 variables, all orderings, all (v,b), truth tables on all assignments.', note='bounded'),
  'C18': dict(level='exploration', ref='3/C18', tech='run-time contracts of the OBDD parser functions and printers (lambda vs expression, synonyms, print round trip, error classes)',
